@@ -31,7 +31,8 @@ EXPLANATION = (
     'R-C12.8 the optimiser that runs before the simulation only registers '
     'ChangeField mutations as absorbable and invalidates consumed entries, so '
     'it cannot fold away a duplicate AddField before it is rejected; '
-    'R-C12.9 can_simulate becomes False only as a constructor default, in a CannotSimulate handler or by propagation from a mutator (the gate returns early when it is False).')
+    'R-C12.9 can_simulate becomes False only as a constructor default, in a CannotSimulate handler or by propagation from a mutator (the gate returns early when it is False); '
+    'R-C12.3 also counts MigrationRecorder.ensure_schema() as state-changing; R-C12.5 also requires the missing-initial guard of ChangeField.simulate on every normal path; R-C12.10 the gate must see models the simulation removes (known finding).')
 NOT_DECIDED = (
     'That every perturbed evolution is in fact rejected (quantifies over '
     'evolutions and needs the diff/simulate semantics executed).')
